@@ -1122,6 +1122,11 @@ def _run(ctx):
         check_path_rules(ctx, eng, case, obs, rep, tol=0.0 if exact and eng == "ase" else 1e-6)
         if obs.get("path"):
             ctx.distinct((eng, case["sub"], case["v0"], case["rev"], case["vel_rev0"], case["maxlen"], case["tag"]))
+            r0 = obs["recomputed"][0] if obs.get("recomputed") else None
+            flip0 = -1.0 if bool(case["rev"]) != bool(case.get("vel_rev0", False)) else 1.0
+            if r0 is None or abs(r0["d"] - case["d0"]) > 1e-9 or abs(r0["vx"] - flip0 * case["v0"]) > 1e-9:
+                ctx.fail(f"C12:{eng}:first-frame-not-start", f"first frame {r0}, start point d={case['d0']} "
+                                                             f"v={flip0 * case['v0']} (velocities reversed iff reverse != vel_rev)", rep)
         if k in ians:
             m = parse_model(ians[k])
             ents = [(e["idx"], sc2(e["order"][0]), sc2(e["order"][1])) for e in obs["path"]]
